@@ -114,6 +114,14 @@ func (vc *FnVC) instr(in ssa.Instruction) {
 	case *ssa.MakeChan:
 		vc.setVal(x, vc.newRef())
 	case *ssa.MakeInterface:
+		// where `nonnil elem T` is relied on for interface payloads, storing a T into an interface must not create a typed nil
+		if vc.cf != nil && vc.e.sortOf(x.X.Type()) == "Int" && isRefType(x.X.Type()) {
+			for _, n := range vc.cf.NonNil {
+				if n == "elem "+vc.e.typeKey(x.X.Type()) {
+					vc.safety("typednil", not(app("=", vc.val(x.X), "0")), x.Pos(), "a nil "+vc.e.typeKey(x.X.Type())+" must not be wrapped in an interface")
+				}
+			}
+		}
 		vc.w.noteIfaceUse(vc.e, x.X.Type())
 		vc.setVal(x, vc.e.toAny(x.X.Type(), vc.val(x.X)))
 	case *ssa.MakeClosure:
